@@ -7,6 +7,9 @@ import Morlock.Driver.Engine
 import Morlock.Driver.Uci
 import Morlock.Driver.Misc
 import Morlock.Driver.Flt
+import Morlock.Driver.Bernstein
+import Morlock.Driver.Book
+import Morlock.Driver.Sargon
 open Morlock.Driver in
 def dispatchPure (toks : List String) : String :=
   match toks with
@@ -30,13 +33,16 @@ def dispatch (st : DriverState) (line : String) : DriverState × String :=
   match splitSp line with
   | "ztable" :: args =>
     match parseZTable args with
-    | some e => ({ st with ztables := e :: st.ztables }, "ok")
+    | some e => ({ st with ztables := e :: st.ztables }, ztableQuality e.2)
     | none => (st, "bad-ztable")
   | "game" :: args => (st, gameOp st args)
   | "search" :: args => (st, searchOp st args)
   | "engine" :: args => (st, engineOp st args)
   | "uci" :: args => (st, uciOp st args)
   | "iter" :: args => (st, iterOp st args)
+  | "bernstein" :: args => (st, bernsteinOp st args)
+  | "sargon" :: args => (st, sargonOp st args)
+  | "bookm" :: _ | "bookfind" :: _ | "booknew" :: _ | "bookstrip" :: _ => (st, bookOp st (splitSp line))
   | "iterhalt" :: _ => (st, "halt-complete=true ## halt-complete=true")
   | other => (st, dispatchPure other)
 
